@@ -804,6 +804,31 @@ pub(crate) fn c09_len_oracle(c: &LenCase, st: &mut Stats) -> Verdict {
     c09_oracle(&bytes, st)
 }
 
+/// a report block on its own, encoded by the reference (RFC 3550 6.4.1): `ReportBlock::parse` must accept the 24
+/// bytes and read every field back
+pub(crate) fn c09_rb_oracle(s: &RbSpec, st: &mut Stats) -> Verdict {
+    st.nontrivial();
+    let mut b = Vec::with_capacity(24);
+    b.extend_from_slice(&s.ssrc.to_be_bytes());
+    b.push(s.fraction_lost);
+    b.extend_from_slice(&s.cumulative_lost.to_be_bytes()[1..]);
+    for x in [s.ext_seq, s.jitter, s.lsr, s.dlsr] {
+        b.extend_from_slice(&x.to_be_bytes());
+    }
+    st.label_if(s.cumulative_lost >> 16 != 0 && s.fraction_lost != 0, "cumulative_lost top byte != 0 next to fraction_lost != 0");
+    let r = no_panic("ReportBlock::parse", || ReportBlock::parse(&b))?;
+    let rb = match r {
+        Ok(rb) => rb,
+        Err(e) => fail!("C09:ReportBlock:rejected-well-formed", "ReportBlock::parse = Err({e:?}) on {}", hex(&b)),
+    };
+    let got = no_panic("ReportBlock accessors", || {
+        (rb.ssrc(), rb.fraction_lost(), rb.cumulative_lost(), rb.extended_sequence_number(), rb.interarrival_jitter(), rb.last_sender_report_timestamp(), rb.delay_since_last_sender_report_timestamp())
+    })?;
+    let want = (s.ssrc, s.fraction_lost, s.cumulative_lost, s.ext_seq, s.jitter, s.lsr, s.dlsr);
+    ensure!(got == want, "C09:ReportBlock:field", "accessors {got:?}, encoded {want:?}; bytes {}", hex(&b));
+    Ok(())
+}
+
 pub(crate) fn c12_len_oracle(c: &LenCase, st: &mut Stats) -> Verdict {
     c12_oracle(&c.bytes(), st)
 }
@@ -837,6 +862,7 @@ pub fn c09(tier: Tier) -> Check {
                         .boxed()
                 }), oracle: c09_ref_oracle }),
             len_leg(tier, c09_len_oracle),
+            Box::new(RandomLeg { name: "reference-encoded-report-blocks", cases: tier.pick(60_000, 600_000), make: Box::new(|| gen::rb_spec(false)), oracle: c09_rb_oracle }),
         ],
     }
 }
@@ -1181,7 +1207,9 @@ pub fn c12(tier: Tier) -> Check {
             Box::new(RandomLeg { name: "generated-strings", cases: tier.pick(450_000, 4_000_000), make: Box::new(gen::parser_input), oracle: c12_oracle }),
             Box::new(RandomLeg { name: "valid-images", cases: tier.pick(120_000, 800_000), make: Box::new(|| gen::valid_image().prop_map(Bytes).boxed()), oracle: c12_oracle }),
             Box::new(SweepLeg { name: "header-space", n, at: Box::new(move |i| sweep.at(i)), oracle: c12_oracle, exhaustive: true }),
-            len_leg(tier, c12_len_oracle),
+            // the quick selection of length fields in both tiers (x 10 variants x 8 packet types): the conversion
+            // matrix parses every image some forty times
+            len_leg(Tier::Quick, c12_len_oracle),
         ],
     }
 }
